@@ -1587,10 +1587,14 @@ class Kconfig(object):
                     if is_main_sdkconfig:
                         sym._sdkconfig_value = val
                         sym._loaded_as_default = True
-                    if not sym.choice:
-                        symbols_with_default_values[sym] = val
-                    else:
-                        choices_with_default_values.add(sym.choice)
+                        # Default values are resolved against what was just recorded for the
+                        # main sdkconfig. For any other file nothing is recorded, and resolving
+                        # would compare with (and possibly inject) the value remembered from
+                        # the main file instead of the one in the file being loaded.
+                        if not sym.choice:
+                            symbols_with_default_values[sym] = val
+                        else:
+                            choices_with_default_values.add(sym.choice)
                 else:  # Default value assignment to promptless symbol
                     # These assignments are ignored as per kconfig specification
                     # Reason: These symbols are in sdkconfig only as a way how to expose them
